@@ -996,5 +996,114 @@ def r17_constant_index(a, tier):
     return rep
 
 
+def r18_memento_total(a, tier):
+    """the rendering of a failure (memento) is total and shows the line and column it was given"""
+    import itertools
+
+    from ..minieval import Raised
+    from ..modelinterp import Hook, ModelInterp
+    rep = RuleReport(
+        'C08.R18',
+        'the message of a parse failure always renders, and shows the position it carries: tatsu.contexts.memento.memento, interpreted with '
+        'styles that leave text as it is, for every text in {"", "a", "ab\\ncd", "a\\n", "\\n\\nx", "a\\tb\\r\\nc", a seven-line text} x line 0..7 x column 0, 1, 5 '
+        'x source present / absent x empty / non-empty rule stack: returns a string (raises nothing), the string holds the message and '
+        '[line+1:col+1], the source line of that index when the text has one, and a marker row whose caret stands col columns to the '
+        'right of where the source lines start',
+        floor=100,
+    )
+    fn = a.p.func('tatsu.contexts.memento.memento')
+
+    class S(str, Hook):
+        """a style and a styled text at once: calling it styles a text (= the text), its modifiers return it, it formats as its text"""
+
+        def __new__(cls, text='', **kw):
+            o = str.__new__(cls, text)
+            o.fn = o._style
+            o.attrs = {}
+            return o
+
+        def __init__(self, *x, **k):
+            pass
+
+        def _style(self, text='', *x, **k):
+            return S(str(text))
+
+        __call__ = _style
+
+        def __getattr__(self, name):
+            if name.startswith('__'):
+                raise AttributeError(name)
+            return lambda *x, **k: self
+
+    class CS:
+        def __getattr__(self, name):
+            if name.startswith('__'):
+                raise AttributeError(name)
+            return S()
+
+    class SIO:
+        def __init__(self):
+            self.parts = []
+
+        def write(self, s_):
+            self.parts.append(s_)
+
+        def getvalue(self):
+            return ''.join(self.parts)
+
+    def _print(*args, file=None, end='\n', sep=' '):
+        file.write(sep.join(str(x) for x in args) + end)
+
+    def slicetowidth(s_, n):
+        return str(s_)[:n]
+    texts = ['', 'a', 'ab\ncd', 'a\n', '\n\nx', 'a\tb\r\nc', '\n'.join(f'line{i}' for i in range(7))]
+    n_bad = 0
+    for text, line, col, source, stack in itertools.product(texts, range(0, 8), (0, 1, 5), ('demo.txt', None), ([], ['start', 'expr'])):
+        if tier != 'thorough' and (line + col + len(text)) % 2 and line > 2:
+            continue
+        info = Obj(line=line, col=col, source=source, filename=source, start=0, end=0, text='')
+        cs = Hook(lambda *x, **k: CS())
+        it = ModelInterp(a, {'_ColorSet': cs, 'Style': Hook(lambda *x, **k: S()), 'StringIO': Hook(SIO), 'print': Hook(_print), 'slicetowidth': Hook(slicetowidth),
+                             'MEMENTO_DEFAULT_COLOR': None})
+        it.methods = lambda recv, name, args, kwargs: ((recv._style(*args, **kwargs) if isinstance(recv, S) and name == '__call__' else getattr(recv, name)(*args, **kwargs)) if isinstance(recv, (S, SIO, CS)) else NotImplemented)
+        try:
+            out = it.call_fn(fn, ['unexpected thing', text, info, stack], {})
+            raised = None
+        except Unsupported as e:
+            raise AnalysisError(f'C08.R18: cannot interpret memento: {e}') from e
+        except Raised as e:
+            out, raised = None, e.cls_name
+        problems = []
+        if raised or not isinstance(out, str):
+            problems.append(f'raises {raised}' if raised else f'returns {type(out).__name__}')
+        else:
+            rows = out.split('\n')
+            if 'unexpected thing' not in out:
+                problems.append('the message is missing')
+            if f'[{line + 1}:{col + 1}]' not in out:
+                problems.append(f'the position [{line + 1}:{col + 1}] is missing')
+            src = text.splitlines()
+            if line < len(src):
+                want = src[line].expandtabs()
+                hits = [r for r in rows if r.endswith(want) and str(line + 1) in r.split('│')[0]] if '│' in out else [r for r in rows if r.endswith(want)]
+                if not hits:
+                    problems.append(f'source line {line + 1} ({want!r}) is not shown')
+                caret = next((r for r in rows if '⌃' in r), None)
+                if caret is None:
+                    problems.append('no marker row')
+                elif hits and '│' in caret and '│' in hits[0]:
+                    c0 = hits[0].index('│') + 2
+                    if caret.index('⌃') - (caret.index('│') + 2) != col or caret.index('│') != hits[0].index('│'):
+                        problems.append(f'the caret stands at column {caret.index("⌃") - c0}, the failure is at column {col}')
+            if stack and not all(any(nm in r for r in rows) for nm in stack):
+                problems.append('the rule stack is missing')
+        rep.add({'text': text, 'line': line, 'col': col, 'source': source, 'stack': stack, 'problems': problems})
+        if problems and n_bad < 6:
+            n_bad += 1
+            rep.fail(fn.qualname, f'memento:{text!r}:{line}:{col}:{bool(source)}:{bool(stack)}', f'memento(msg, {text!r}, line={line}, col={col}, source={source!r}, stack={stack}): ' +
+                     '; '.join(problems) + ' - the message of a failure at that position does not render, or points somewhere else', fn.loc)
+    return rep
+
+
 RULES = [r1_one_factory, r2_sentinels, r3_cache_guards, r4_check_before_use, r5_progress, r6_scanner_bounds, r7_operand_coverage,
-         r8_eat_loops_terminate, r9_converters_guarded, r10_message_renders, r11_line_index, r12_include_cycles, r13_input_converters, r14_pattern_literals, r15_constant_terminates, r16_messages_total, r17_constant_index]
+         r8_eat_loops_terminate, r9_converters_guarded, r10_message_renders, r11_line_index, r12_include_cycles, r13_input_converters, r14_pattern_literals, r15_constant_terminates, r16_messages_total, r17_constant_index, r18_memento_total]
